@@ -1,18 +1,18 @@
 #!/bin/bash
-# tools/seeded_confirm.sh <ID> <mk>  — confirm one independently written breaking change and record it under seeded/.
+# tools/seeded_confirm.sh <ID> <mk> [base-dir=/tmp/mut] [tag]  — confirm one independently written breaking change and record it under seeded/.
 # Uses the private worktree /tmp/mut/<ID> (must be clean) and the agent's output /tmp/mut/<ID>-out/<mk>.
 # Confirms: applies cleanly, builds, baseline suite passes with it, demo fails with it and passes without it;
 # then runs ./check <ID> quick against the patched worktree and records what was reported.
 set -u
 export GOFLAGS=-mod=mod GOPROXY=off GOSUMDB=off GOTOOLCHAIN=local
-ID=$1; MK=$2; W=/tmp/mut/$ID; SRC=/tmp/mut/$ID-out/$MK; DST=/verif/seeded/$ID-$MK
+ID=$1; MK=$2; BDIR=${3:-/tmp/mut}; TAG=${4:-}; W=$BDIR/$ID; SRC=$BDIR/$ID-out/$MK; DST=/verif/seeded/$ID-$TAG$MK
 [ -z "$(git -C $W status --short)" ] || { echo "$W not clean"; exit 2; }
 git -C $W checkout -q --detach $(git -C /repo rev-parse HEAD)
 mkdir -p $DST
 cp $SRC/patch.diff $SRC/demo_test.go $SRC/go.mod $DST/ 2>/dev/null
 [ -d $SRC/testdata ] && cp -r $SRC/testdata $DST/
 DEMO=$(mktemp -d); cp -r $SRC/* $DEMO/; cp $W/go.sum $DEMO/go.sum
-sed -i "s#=> /tmp/mut/$ID\$#=> $W#" $DEMO/go.mod
+sed -i -E "s#=> /tmp/mut2?/$ID\$#=> $W#" $DEMO/go.mod
 RACE=""; grep -q -- "-race" $SRC/meta.json && RACE="-race"
 demo() { (cd $DEMO && timeout 600 go test $RACE -count=1 ./... >/dev/null 2>&1); echo $?; }
 D0=$(demo)
